@@ -20,7 +20,7 @@ pub static DEF: PropDef = PropDef {
     id: "C06",
     level: "exploration",
     engine: "ingest",
-    rule: "one run = a real Ingester (WAL on or off, object-store or in-memory catalog, flush_row_count 2..50 or (one run in five) a size threshold of 300 B..6 KB, flush_interval 0.2..5 s, sometimes a tiny max_buffer_size) with 2..4 concurrent writer tasks issuing 3..8 writes each of 1..50-row batches (thorough tier: 16 extra runs whose first write has 520 000..600 000 rows; one write in seven re-sends the previous batch unchanged) over 7 schema variants (both timestamp types, three that differ from the first one only in a column's nullability, in column order, or in schema metadata, nullable label, i64/u64/f64 extremes incl. NaN/-0/inf/subnormal, near-extreme timestamps) plus the flush timer and two subscribers; no storage faults; requests go through the real Arrow-Flight and OTLP ingest handlers or straight to Ingester::write; a third of the runs drop one handler future in five at a seeded point (client disconnect; that request's rows may or may not be stored, everybody else's must be); every object-store request and the post-WAL-append pause point is a seeded scheduling point; distinct = distinct grant sequence; non-trivial = completed AND writers/flushes interleaved",
+    rule: "one run = a real Ingester (WAL on or off, object-store or in-memory catalog, flush_row_count 2..50 or (one run in five) a size threshold of 300 B..6 KB, flush_interval 0.2..5 s, sometimes a tiny max_buffer_size) with 2..4 concurrent writer tasks issuing 3..8 writes each of 1..50-row batches (thorough tier: 16 extra runs whose first write has 520 000..600 000 rows; one write in seven re-sends the previous batch unchanged) over 7 schema variants (both timestamp types, three that differ from the first one only in a column's nullability, in column order, or in schema metadata, nullable label, i64/u64/f64 extremes incl. NaN/-0/inf/subnormal, timestamps up to i64::MAX) plus the flush timer and two subscribers; no storage faults; requests go through the real Arrow-Flight and OTLP ingest handlers or straight to Ingester::write; a third of the runs drop one handler future in five at a seeded point (client disconnect; that request's rows may or may not be stored, everybody else's must be); every object-store request and the post-WAL-append pause point is a seeded scheduling point; distinct = distinct grant sequence; non-trivial = completed AND writers/flushes interleaved",
     quick_runs: 4000,
     thorough_runs: 60_000,
     run_cap_ms: 120_000,
@@ -142,7 +142,7 @@ fn scen(spec: RunSpec) -> ScenFut {
                 let rows: Vec<Row> = (0..nrows)
                     .map(|_| {
                         let ts = if extreme_ts {
-                            [i64::MAX - 2 * HOUR, i64::MAX - 2 * HOUR + 5, i64::MAX - 3 * HOUR][sim::w(3) as usize]
+                            [i64::MAX - 2 * HOUR, i64::MAX - 2 * HOUR + 5, i64::MAX - 3 * HOUR, i64::MAX - 5, i64::MAX][sim::w(5) as usize]
                         } else {
                             now - (sim::w(3) as i64) * HOUR + sim::w(1000) as i64 * 1_000_003 - [0, 0, 0, HOUR * 24 * 3][sim::w(4) as usize]
                         };
